@@ -89,9 +89,22 @@ func TestPropMatcherRegexOnly(t *testing.T) {
 
 // ---- (ii) the same filter at each place ---------------------------------------
 
-type lineT struct{ name, val, ts string }
+type lineT struct {
+	name, val, ts       string
+	lead, s1, s2, trail string // the whitespace layout the line arrives with ("" = canonical single blanks)
+}
 
+// String: the line as it is forwarded (three fields, single blanks).
 func (l lineT) String() string { return l.name + " " + l.val + " " + l.ts }
+
+// Wire: the line as it arrives.  Any whitespace layout the validator accepts denotes the same metric: the name is what
+// is left after splitting, and every filter is defined on that name only.
+func (l lineT) Wire() string {
+	if l.s1 == "" {
+		return l.String()
+	}
+	return l.lead + l.name + l.s1 + l.val + l.s2 + l.ts + l.trail
+}
 
 const nowUnix = 1500000000 // multiple of 10
 
@@ -110,7 +123,15 @@ func genLines(t *rapid.T, f gen.Filter) []lineT {
 		}
 		// value / timestamp chosen from the literals filters are built of
 		// (1, 12, 5, ...): the verdict must not depend on them.
-		out[i] = lineT{name, gen.ValueToken(t, "val"), fmt.Sprintf("%d", nowUnix+rapid.SampledFrom([]int{0, 1, 2, 5, 9}).Draw(t, "tsoff"))}
+		out[i] = lineT{name: name, val: gen.ValueToken(t, "val"), ts: fmt.Sprintf("%d", nowUnix+rapid.SampledFrom([]int{0, 1, 2, 5, 9}).Draw(t, "tsoff"))}
+		if rapid.IntRange(0, 3).Draw(t, "layout") == 0 {
+			sep := func(label string) string {
+				return rapid.SampledFrom([]string{"\t", "\t", " ", "  ", " \t", "\v"}).Draw(t, label)
+			}
+			out[i].s1, out[i].s2 = sep("s1"), sep("s2")
+			out[i].lead = rapid.SampledFrom([]string{"", "", " ", "\t"}).Draw(t, "lead")
+			out[i].trail = rapid.SampledFrom([]string{"", "", " ", "\t "}).Draw(t, "trail")
+		}
 	}
 	return out
 }
@@ -155,7 +176,7 @@ func TestPropPlaces(t *testing.T) {
 			cap := h.NewCaptureRoute("cap", matcher.Matcher{})
 			tab.AddRoute(cap)
 			for _, l := range lines {
-				tab.Dispatch([]byte(l.String()))
+				tab.Dispatch([]byte(l.Wire()))
 			}
 			d := h.ReadTableCounters().Sub(before)
 			if int(d.Blacklist) != nMatch {
@@ -228,7 +249,7 @@ func TestPropPlaces(t *testing.T) {
 				}
 			} else {
 				for _, l := range lines {
-					tab.Dispatch([]byte(l.String()))
+					tab.Dispatch([]byte(l.Wire()))
 				}
 			}
 			rt.Flush()
@@ -258,7 +279,7 @@ func TestPropPlaces(t *testing.T) {
 			// every name is sent twice: the second lookup may be served by the cache
 			for rep := 0; rep < 2; rep++ {
 				for _, l := range lines {
-					tab.Dispatch([]byte(l.String()))
+					tab.Dispatch([]byte(l.Wire()))
 				}
 			}
 			h.AggBarrier(agg)
